@@ -206,6 +206,45 @@ def nest_bounds(fn, param_dims):
     return out
 
 
+
+PROG = None      # set by the rule module (bounds.PROG = prog) so that named constants can be evaluated
+
+
+def const_int(node):
+    """integer value of a literal or of a constant expression (named consts, arithmetic on them, `ARRAY.len()`)"""
+    v = core.lit_value(node)
+    if isinstance(v, int) and not isinstance(v, bool):
+        return v
+    if PROG is None:
+        return None
+    from . import sym, wire
+    n0 = core.strip(node)
+    # only expressions without locals can be constant
+    if any(x.get("k") == "Path" and x.get("res") == "local" for x in core.walk(n0)):
+        return None
+    try:
+        t = wire.WireInterp(PROG, prims=[], depth=4).eval(n0, {})
+    except Exception:
+        return None
+
+    def fold(t):
+        if not isinstance(t, tuple) or not t:
+            return t
+        t = tuple(fold(x) if isinstance(x, tuple) else x for x in t)
+        if t[0] == "cast" and isinstance(t[2], tuple) and t[2][0] == "c" and isinstance(t[2][1], int):
+            return t[2]
+        if t[0] == "op" and t[2][0] == "c" and t[3][0] == "c" and isinstance(t[2][1], int) and isinstance(t[3][1], int):
+            a, b = t[2][1], t[3][1]
+            try:
+                return ("c", {"+": a + b, "-": a - b, "*": a * b, "/": a // b if b else None, "%": a % b if b else None, "<<": a << b, ">>": a >> b}[t[1]])
+            except (KeyError, TypeError, ValueError):
+                return t
+        return t
+    t = fold(t)
+    if t[0] == "c" and isinstance(t[1], int) and not isinstance(t[1], bool):
+        return t[1]
+    return None
+
 def exact_len_guard(fn, lid):
     """K when the function starts by leaving unless `<lid>.len() == K`: `if x.len() != K { return .. }`"""
     for n in core.walk_fn(fn, into_closures=False):
@@ -215,7 +254,7 @@ def exact_len_guard(fn, lid):
         if cnd.get("k") == "Binary" and cnd["op"] == "!=":
             for a, b in ((cnd["l"], cnd["r"]), (cnd["r"], cnd["l"])):
                 a0 = core.strip(a)
-                k = core.lit_value(b)
+                k = const_int(b)
                 if a0.get("k") == "MethodCall" and a0["m"] == "len" and not a0["args"] and core.strip(a0["recv"]).get("lid") == lid and isinstance(k, int):
                     # the then-branch must diverge
                     t = core.strip(n["t"])
@@ -297,7 +336,7 @@ def chunk_index(fn, site):
     K % N == 0 (every chunk is full) and k < N"""
     n = site["node"]
     base = core.strip(n["l"])
-    k = core.lit_value(n["r"])
+    k = const_int(n["r"])
     if base.get("k") != "Path" or base.get("res") != "local" or not isinstance(k, int):
         return None
     origins = core.binding_origins(fn)
@@ -319,7 +358,7 @@ def chunk_index(fn, site):
             continue
         for c in core.walk(fl[1]):
             if c.get("k") == "MethodCall" and c["m"] in ("chunks", "chunks_exact") and c["args"]:
-                N = core.lit_value(c["args"][0])
+                N = const_int(c["args"][0])
                 src = core.strip(c["recv"])
                 if isinstance(N, int) and src.get("k") == "Path" and src.get("res") == "local":
                     K, _g = exact_len_guard(fn, src["lid"])
